@@ -63,7 +63,7 @@ def run(ctx):
         'cat echoes its input; the order of a running child\'s output relative to the program\'s later writes is left open '
         'until close(): every interleaving that keeps each stream\'s order and the start/close window is accepted',
         'with a failing stdout writer only "the run returns an error" is judged',
-        'histories that start processes are sampled (a process start costs ~100 ms here): all with <= 2 actions plus a seeded 3% (quick) / 8% (thorough) of the 3-action ones, 5% of the 4-action ones, 30% of the random walks; histories without a child process are replayed exhaustively',
+        'histories that start processes are sampled (a process start costs ~100 ms here): all with <= 2 actions plus a seeded 3% (quick) / 5% (thorough) of the 3-action ones, 3% of the 4-action ones, 30% of the random walks; histories without a child process are replayed exhaustively',
         'gate writer: the first writer is parked for up to 2.5 s; a second writer that needs longer to show up is missed '
         '(missed detection only, never an alarm)',
     ]
@@ -90,11 +90,11 @@ def run(ctx):
     # 2. spec -> code
     gen = ctx.cfg('Gen_IOStreams', name='Gen_delivery', constants={'Family': '"delivery"', 'Depth': 3, 'Rich': 1 if q else 2})
     ctx.tlc('Gen_IOStreams', gen, capture='delivery_all.ndjson', timeout=900)
-    sample_procs(ctx, 'delivery_all.ndjson', 'delivery.ndjson', 3, 0.03 if q else 0.08)
+    sample_procs(ctx, 'delivery_all.ndjson', 'delivery.ndjson', 3, 0.03 if q else 0.05)
     if not q:
         gen4 = ctx.cfg('Gen_IOStreams', name='Gen_delivery4', constants={'Family': '"delivery"', 'Depth': 4, 'Rich': 0})
         ctx.tlc('Gen_IOStreams', gen4, capture='delivery4_all.ndjson', timeout=1500, heap='8g')
-        sample_procs(ctx, 'delivery4_all.ndjson', 'delivery4.ndjson', 0, 0.05)
+        sample_procs(ctx, 'delivery4_all.ndjson', 'delivery4.ndjson', 0, 0.03)
         sim = ctx.cfg('Gen_IOStreams', name='Gen_delivery_sim', constants={'Family': '"delivery"', 'Depth': 8, 'Rich': 2})
         ctx.tlc('Gen_IOStreams', sim, capture='delivery_sim_all.ndjson', simulate=400, depth=10, workers=1, timeout=600)
         sample_procs(ctx, 'delivery_sim_all.ndjson', 'delivery_sim.ndjson', 0, 0.3)
